@@ -339,6 +339,7 @@ func c20Cram(r *core.Result, rng *rand.Rand) {
 		hdr    string // the header fields as fmt prints them
 	}
 	var wants []want
+	bounds := []int{26} // stream offsets at which a container (or the definition) ends
 	randI := func() int32 {
 		w := uint(rng.Intn(32) + 1)
 		u := rng.Uint32()
@@ -401,6 +402,7 @@ func c20Cram(r *core.Result, rng *rand.Rand) {
 		f.Write(h.Bytes())
 		f.Write(blocks.Bytes())
 		wants = append(wants, want{nb, hdr})
+		bounds = append(bounds, f.Len())
 	}
 	total := f.Len()
 	whole := bytes.NewReader(f.Bytes())
@@ -433,8 +435,24 @@ func c20Cram(r *core.Result, rng *rand.Rand) {
 		for cr.Next() {
 			ct := cr.Container()
 			// the decoded header fields (unexported; fmt prints them)
-			if got := fmt.Sprintf("%+v", *ct); ci < len(wants) && !strings.Contains(got, wants[ci].hdr+" ") {
-				r.Violate("cram|header-values", "container %d read through source kind %d: decoded %s, encoded %s", ci, sk, got, wants[ci].hdr)
+			// (observed through the private field names of this version of
+			// the package; if they are not all there the values are not
+			// observable and the clause is counted as not judged)
+			if got := fmt.Sprintf("%+v", *ct); ci < len(wants) {
+				observable := true
+				for _, f := range []string{"refID:", "start:", "span:", "nRec:", "recCount:", "bases:", "blocks:", "landmarks:"} {
+					if !strings.Contains(got, f) {
+						observable = false
+					}
+				}
+				switch {
+				case !observable:
+					r.Count("cram_header_values_not_observable", 1)
+				case !strings.Contains(got, wants[ci].hdr+" "):
+					r.Violate("cram|header-values", "container %d read through source kind %d: decoded %s, encoded %s", ci, sk, got, wants[ci].hdr)
+				default:
+					r.Count("cram_header_values_checked", 1)
+				}
 			}
 			nb := 0
 			for ct.Next() {
@@ -463,6 +481,62 @@ func c20Cram(r *core.Result, rng *rand.Rand) {
 	})
 	if pv != nil {
 		r.Violate("panic|cram-stream|"+core.TopLibFrame(st), "cram reader panicked on a spec-built stream: %v", pv)
+		return
+	}
+	// Every proper prefix: the containers that are complete before the cut
+	// are delivered, and unless the cut is at the end of a container the
+	// reader reports a failure (fewer bytes were available than announced).
+	if sk != 0 || f.Len() > 4000 {
+		return
+	}
+	all := f.Bytes()
+	for cut := 26; cut < len(all); cut++ {
+		complete, atBound := 0, false
+		for i, b := range bounds[1:] {
+			if b <= cut {
+				complete = i + 1
+			}
+			if b == cut {
+				atBound = true
+			}
+		}
+		if cut == 26 {
+			atBound = true
+		}
+		var got int
+		var rerr error
+		pv, st := core.Recover(func() {
+			cr, err := cram.NewReader(bytes.NewReader(all[:cut]))
+			if err != nil {
+				rerr = err
+				return
+			}
+			for cr.Next() {
+				ct := cr.Container()
+				for ct.Next() {
+					ct.Block().Value()
+				}
+				if ct.Err() != nil {
+					rerr = ct.Err()
+					return
+				}
+				got++
+			}
+			rerr = cr.Err()
+		})
+		if pv != nil {
+			r.Violate("panic|cram-truncated|"+core.TopLibFrame(st), "cram reader panicked on a stream cut at %d of %d: %v", cut, len(all), pv)
+			return
+		}
+		if got > complete+1 || (got > complete && rerr == nil) {
+			r.Violate("cram|truncated|extra-container", "stream cut at %d of %d: %d containers delivered without error, %d are complete before the cut", cut, len(all), got, complete)
+			return
+		}
+		if !atBound && rerr == nil {
+			r.Violate("cram|truncated|clean-end", "stream cut at %d of %d (inside a container, boundaries %v): %d containers and then a clean end, Err() = nil", cut, len(all), bounds, got)
+			return
+		}
+		r.Count("cram_truncations", 1)
 	}
 }
 
